@@ -47,6 +47,10 @@ Why(c, e) ==
        ELSE IF e.k = "F" /\ e.plain /\ ~OneValueStrict(c, d) THEN "OneValue-value"
        ELSE IF e.k \in {"I", "F"} /\ ~unwind /\ ~OneValueLoose(c, d) THEN "OneValue"
        ELSE IF e.k = "I" /\ e.oc = "ENDSTATEMENT" /\ ~StatementClean(d) THEN "StatementClean"
+       \* a scope that is entered starts with nothing it did not produce: the regions of the frames an operator
+       \* pushed hold at most the operator's own nil result (Stack.tla Enter)
+       ELSE IF e.k = "I" /\ ~unwind /\ Common(c, d) = Top(c) /\ Top(d) > Top(c)
+               /\ (\E i \in (d.bases[Top(c) + 1] + 1)..Len(d.slots) : d.slots[i] # NilS) THEN "EnterClean"
        \* loops do not accumulate: from its third (re)start on, a frame's region at its first
        \* instruction is never larger than at the previous restart
        ELSE IF IsRestart(e) /\ c.fids = e.fids /\ c.rn[Len(e.fids)] >= 2
